@@ -157,8 +157,8 @@ package redis
 //@   modifies d.allocs, d.buf
 //@   ensures @len len(ss) == n && cap(ss) == n
 //@   ensures @slab-disjoint n > 0 && n < 512 ==> disjoint(ss, d.buf)
-//@   ensures @not-old-memory n > 0 ==> (fresh(ss) || within(ss, old(d.buf)))
-//@   ensures @slab-suffix fresh(d.buf) || within(d.buf, old(d.buf))
+//@   ensures @not-old-memory n > 0 ==> (fresh(ss) || (within(ss, old(d.buf)) && withincap(ss, old(d.buf))))
+//@   ensures @slab-suffix fresh(d.buf) || (within(d.buf, old(d.buf)) && withincap(d.buf, old(d.buf)))
 
 //@ func (*Reader).buffered
 //@   prop C10 C11
